@@ -494,7 +494,7 @@ DueTimes(t, ch, sc, fu2, ver) ==
   \* a follow-up series that is certainly under way (one question can be nothing else) and certainly not over
   \* (for an instance that is reported found right now: a ServiceRemoved ends its series)
   \cup {fu2[k].lastAny + 500 : k \in {x \in Dom(fu2) : /\ fu2[x].n >= 1 /\ fu2[x].m < 3 /\ fu2[x].tot < 3
-                                                        /\ \E y \in Dom(ch) : ch[y].bound /\ x \in ch[y].found}}
+                                                        /\ \E y \in Dom(ch) : ch[y].kind = "browse" /\ ch[y].bound /\ x \in ch[y].found}}
 WakeCover(t, ch, sc, fu2, ver) ==
   LET due == {d \in DueTimes(t, ch, sc, fu2, ver) : d > T} IN
   IF due = {} THEN {}
